@@ -314,9 +314,9 @@ type vTransPLink struct {
 	downUsed int
 	dead     bool
 	px       *vTransProxy
-	downEnd  []int64 // stream offset at which each parsed frame of `down` ends
-	downOff  int64   // bytes parsed into frames so far
-	downSent int64   // bytes handed to the follower's socket so far (after the hold-back)
+	downEnd  []int64  // stream offset at which each parsed frame of `down` ends
+	downOff  int64    // bytes parsed into frames so far
+	downSent int64    // bytes handed to the follower's socket so far (after the hold-back)
 	why      []string // debug: how each direction ended
 }
 
@@ -628,7 +628,6 @@ func vTransWait(cond func() bool, d time.Duration) bool {
 	}
 }
 
-
 // ---------------------------------------------------------------------------------------------
 // the fixture: follower F --(proxy)--> leader L, plus a dead address
 
@@ -690,22 +689,24 @@ func (w *vTransWorld) tokOf(b []byte) string {
 	return s
 }
 
-func (w *vTransWorld) manager() *TransparencyManager { return w.F.s.replicationManager.transparencyManager }
+func (w *vTransWorld) manager() *TransparencyManager {
+	return w.F.s.replicationManager.transparencyManager
+}
 
 // ---------------------------------------------------------------------------------------------
 // one case
 
 type vTransReq struct {
-	typ                                                                         byte // L U I C O
-	mode                                                                        byte // w p v (text)
-	tok, flag, db, lockid, key, tflag, timeout, eflag, expried, count, rcount   int
-	data                                                                        []byte // data frame (with its length prefix) or nil
-	value                                                                       string // text SET value
-	will                                                                        bool   // a will command (WILL_LOCK / WILL_UNLOCK frame; text: … WILL 1), typ says what it runs as
-	implicitId                                                                  bool   // text UNLOCK without LOCK_ID: the server fills in the LockId of the connection's last successful LOCK (= lockid, set by the script)
-	shortForm                                                                   bool   // text: `LOCK <16 raw key bytes> TIMEOUT 0` (fits the first 64-byte read)
-	cid                                                                         int
-	fw                                                                          bool
+	typ                                                                       byte // L U I C O
+	mode                                                                      byte // w p v (text)
+	tok, flag, db, lockid, key, tflag, timeout, eflag, expried, count, rcount int
+	data                                                                      []byte // data frame (with its length prefix) or nil
+	value                                                                     string // text SET value
+	will                                                                      bool   // a will command (WILL_LOCK / WILL_UNLOCK frame; text: … WILL 1), typ says what it runs as
+	implicitId                                                                bool   // text UNLOCK without LOCK_ID: the server fills in the LockId of the connection's last successful LOCK (= lockid, set by the script)
+	shortForm                                                                 bool   // text: `LOCK <16 raw key bytes> TIMEOUT 0` (fits the first 64-byte read)
+	cid                                                                       int
+	fw                                                                        bool
 }
 
 type vTransConn struct {
@@ -1955,7 +1956,6 @@ func (x *vTransRun) wakeWaiters() {
 	}
 }
 
-
 // ---------------------------------------------------------------------------------------------
 // scripts
 
@@ -2198,6 +2198,11 @@ func vTransScriptProbe(x *vTransRun) {
 	x.evRequest(c, x.lockReq('L', k, id, 0, 120))
 	x.evLeader(1)
 	x.evRole(STATE_FOLLOWER)
+	// the node is NOT the leader and its own table holds key k: administrative text commands that would end holds (FLUSHALL, FLUSHDB) sent by
+	// a client to this node must be refused and leave its tables alone. Not an event of the model (a refusal changes nothing): a raw
+	// text connection of the harness's own, closed again at once.
+	x.adminProbe("FLUSHALL")
+	x.adminProbe("FLUSHDB", "0")
 	q := x.lockReq('L', k, x.w.fresh(), 0, 60)
 	q.flag = protocol.LOCK_FLAG_CONCURRENT_CHECK
 	x.evRequest(c, q)
@@ -2236,6 +2241,32 @@ func vTransScriptResume(x *vTransRun) {
 	x.evRequest(c, x.lockReq('U', k, id, 0, 0))
 	x.evClose(c)
 	x.evClose(holder)
+}
+
+// adminProbe: one administrative text command on a fresh raw connection to the node that is not the leader. C10: the node's holds
+// change only by applying the leader's stream — whatever a client sends.
+func (x *vTransRun) adminProbe(args ...string) {
+	if !x.nonLeader() {
+		return
+	}
+	before := x.w.F.digest()
+	n0 := len(x.w.F.srv.GetStreams())
+	conn, err := net.DialTimeout("tcp", x.w.F.addr, 2*time.Second)
+	if err != nil {
+		return
+	}
+	x.waitFor(func() bool { return len(x.w.F.srv.GetStreams()) > n0 }, 2*time.Second)
+	_ = conn.SetDeadline(time.Now().Add(2 * time.Second))
+	_, _ = conn.Write(vTransRESPCmd(args...))
+	buf := make([]byte, 256)
+	n, _ := conn.Read(buf)
+	reply := string(buf[:n])
+	_ = conn.Close()
+	x.waitFor(func() bool { return len(x.w.F.srv.GetStreams()) <= n0 }, 2*time.Second)
+	x.out.stat("admin-probe:" + args[0])
+	if after := x.w.F.digest(); after != before {
+		x.report("C10:follower-state-changed-by-client", fmt.Sprintf("the node is not the leader, yet its own lock tables changed when a client sent `%s` (answered %q): %s -> %s", strings.Join(args, " "), reply, before, after))
+	}
 }
 
 // the oracle releases a hold at the leader directly (and the twin's): queued requests get granted, wherever they came from
@@ -2565,7 +2596,9 @@ func vTransCase(w *vTransWorld, out *vOut, seed int64, idx int, script int) {
 	for _, t := range toks {
 		rs := x.results[t]
 		if len(rs) > 1 {
-			isErr := func(s string) bool { return strings.Contains(s, fmt.Sprintf(",%d,11,", t)) || strings.HasPrefix(s, "T:11,") }
+			isErr := func(s string) bool {
+				return strings.Contains(s, fmt.Sprintf(",%d,11,", t)) || strings.HasPrefix(s, "T:11,")
+			}
 			cause := "other"
 			if isErr(rs[0]) && !isErr(rs[1]) {
 				cause = "rerouted-after-rollback" // ERROR fabricated at the link loss, then the leader's real answer over the new link
